@@ -14,7 +14,7 @@ use crate::ops::*;
 use crate::world::*;
 use generic_array::functional::FunctionalSequence;
 use generic_array::sequence::*;
-use generic_array::typenum::{Unsigned, U0, U1, U2, U3, U5, U8};
+use generic_array::typenum::{Unsigned, U0, U1, U17, U2, U3, U5, U8};
 use generic_array::{ArrayLength, GenericArray};
 
 fn infra<R>(f: impl FnOnce() -> R) -> R {
@@ -58,7 +58,8 @@ impl<E: Elem> Default for Wide<E> {
     }
 }
 
-const WLENS: [usize; 6] = [0, 1, 2, 3, 5, 8];
+// 17 elements of 4.1 KB: an array above 64 KiB made of few elements
+const WLENS: [usize; 7] = [0, 1, 2, 3, 5, 8, 17];
 macro_rules! with_wlen {
     ($i:expr; $N:ident => $body:expr) => {
         match $i {
@@ -67,7 +68,8 @@ macro_rules! with_wlen {
             2 => { type $N = U2; $body }
             3 => { type $N = U3; $body }
             4 => { type $N = U5; $body }
-            _ => { type $N = U8; $body }
+            5 => { type $N = U8; $body }
+            _ => { type $N = U17; $body }
         }
     };
 }
@@ -90,16 +92,16 @@ ops_group!(GWide);
 
 impl<'a, E: Elem> GWide<'a, E> {
     pub fn op_wide(&mut self, cx: &mut Cx, a: [u32; N_ARGS]) {
-        let which = a[0] % 8;
-        let wi = (a[1] % 6) as usize;
+        let which = a[0] % 9;
+        let wi = (a[1] % 7) as usize;
         let n = WLENS[wi];
         let delta = a[2] % 3; // collect: 0 = exactly N, 1 = one short, 2 = one more
         let mut seen = Seen { calls: infra(Vec::new), result: infra(Vec::new), want_calls: None, want_result: None, what: "", flags: infra(Vec::new) };
-        let r = with_wlen!(wi; N => lib(|| run_wide::<E, N>(which, delta, &mut seen)));
+        let r = with_wlen!(wi; N => lib(|| run_wide::<E, N>(which, delta, (a[3], a[4]), &mut seen)));
         cx.cov(&[OpKind::WideOp as u64, which as u64, n as u64, delta as u64, r.is_err() as u64]);
         cx.probe("operation on an array of larger-than-a-page elements");
         for (class, detail) in infra(|| std::mem::take(&mut seen.flags)) {
-            if (class.starts_with("C07") && cx.checks.c07) || (class.starts_with("C15") && cx.checks.c15) {
+            if (class.starts_with("C07") && cx.checks.c07) || (class.starts_with("C15") && cx.checks.c15) || (class.starts_with("C06") && cx.checks.c06) {
                 fail(class, detail);
             }
         }
@@ -148,7 +150,7 @@ fn iota(n: usize, base: u32) -> Vec<u32> {
 }
 
 /// runs under the library context; every closure is a seam
-fn run_wide<E: Elem, N: ArrayLength>(which: u32, delta: u32, seen: &mut Seen) {
+fn run_wide<E: Elem, N: ArrayLength>(which: u32, delta: u32, sched: (u32, u32), seen: &mut Seen) {
     let n = N::USIZE;
     let gen = |seen: &mut Seen| -> GenericArray<Wide<E>, N> {
         GenericArray::<Wide<E>, N>::generate(|i| {
@@ -305,6 +307,78 @@ fn run_wide<E: Elem, N: ArrayLength>(which: u32, delta: u32, seen: &mut Seen) {
             let _ = seqs(b.as_slice(), 960);
             let c: Box<GenericArray<Wide<E>, N>> = a.into_iter().collect();
             let _ = seqs(c.as_slice(), 960);
+        }
+        // a seeded schedule of iterator calls on the by-value iterator, against a queue model
+        8 => {
+            seen.what = "by-value iterator schedule";
+            seen.want_calls = Some(iota(n, 0));
+            let a = gen(seen);
+            let mut it = a.into_iter();
+            let mut model: std::collections::VecDeque<u32> = infra(|| (0..n as u32).collect());
+            let mut x = (sched.0 as u64) << 20 | 0x9E37;
+            let steps = 1 + sched.1 % 12;
+            let mut bad = |what: &str, got: String, want: String| {
+                infra(|| seen.flags.push(("C06-return-value", format!("iterator over {n} larger-than-a-page elements: {what} gave {got}, the queue model {want}"))));
+            };
+            for _ in 0..steps {
+                x = x.wrapping_mul(6364136223846793005).wrapping_add(1442695040888963407);
+                let op = (x >> 33) % 11;
+                let k = ((x >> 45) % (n as u64 + 3)) as usize;
+                match op {
+                    0 | 1 => {
+                        let got = if op == 0 { it.next() } else { it.next_back() }.map(|w| w.look(964).1);
+                        let want = infra(|| if op == 0 { model.pop_front() } else { model.pop_back() });
+                        if got != want { bad(if op == 0 { "next" } else { "next_back" }, format!("{got:?}"), format!("{want:?}")); }
+                    }
+                    2 | 3 => {
+                        let got = if op == 2 { it.nth(k) } else { it.nth_back(k) }.map(|w| w.look(964).1);
+                        let want = infra(|| {
+                            if k >= model.len() { model.clear(); None }
+                            else if op == 2 { model.drain(..k); model.pop_front() }
+                            else { let l = model.len(); model.truncate(l - k); model.pop_back() }
+                        });
+                        if got != want { bad(if op == 2 { "nth" } else { "nth_back" }, format!("{got:?} for n = {k}"), format!("{want:?}")); }
+                    }
+                    4 => {
+                        let (l, h) = (it.len(), it.size_hint());
+                        if l != model.len() || h != (model.len(), Some(model.len())) { bad("len / size_hint", format!("{l} / {h:?}"), format!("{}", model.len())); }
+                    }
+                    5 => {
+                        let got = seqs(it.as_slice(), 965);
+                        let want: Vec<u32> = infra(|| model.iter().copied().collect());
+                        if got != want { bad("as_slice", format!("{got:?}"), format!("{want:?}")); }
+                    }
+                    6 => {
+                        let c = it.clone();
+                        let got: Vec<u32> = { let v = infra(Vec::new); c.fold(v, |mut v, w| { let s = w.look(964).1; infra(|| v.push(s)); v }) };
+                        let want: Vec<u32> = infra(|| model.iter().copied().collect());
+                        if got != want { bad("clone + fold", format!("{got:?}"), format!("{want:?}")); }
+                    }
+                    7 => {
+                        let c = it.clone();
+                        let got: Vec<u32> = { let v = infra(Vec::new); c.rfold(v, |mut v, w| { let s = w.look(964).1; infra(|| v.push(s)); v }) };
+                        let want: Vec<u32> = infra(|| model.iter().rev().copied().collect());
+                        if got != want { bad("clone + rfold", format!("{got:?}"), format!("{want:?}")); }
+                    }
+                    8 => {
+                        let got = it.clone().count();
+                        if got != model.len() { bad("clone + count", format!("{got}"), format!("{}", model.len())); }
+                    }
+                    9 => {
+                        let got = it.clone().last().map(|w| w.look(964).1);
+                        let want = infra(|| model.back().copied());
+                        if got != want { bad("clone + last", format!("{got:?}"), format!("{want:?}")); }
+                    }
+                    _ => {
+                        // write through the mutable view: swap the two ends of what is left
+                        let s = it.as_mut_slice();
+                        let l = s.len();
+                        if l >= 2 { s.swap(0, l - 1); infra(|| model.swap(0, l - 1)); }
+                    }
+                }
+            }
+            // abandoned wherever the schedule left it
+            let _ = seqs(it.as_slice(), 965);
         }
         // array -> Vec -> array, array -> Box<[T]> -> boxed array
         _ => {
